@@ -62,6 +62,12 @@ def rn(a):
     return ("r#" + a["n"]) if a["n"] in KEYWORDS else a["n"]
 
 
+def lv(a):
+    """The harness's own local variable holding the value of argument `a` (never the argument's name: a handler argument may be
+    called like any local of the harness -- `funds`, `app`, `sender`, ..)."""
+    return "av_" + a["n"]
+
+
 def pick(t, val, i):
     """(rust expression, json text) of the value of argument i (of type t) in message value `val`.
     Integers beyond the second position are distinct per position, so that a permutation of same-typed arguments is visible."""
@@ -229,16 +235,16 @@ def encode_src(prog):
     for part in prog["parts"]:
         for m in part["methods"]:
             for val in (0, 1):
-                lets = "".join("let %s: %s = %s; " % (rn(a), TYPES[a["t"]][0], pick(a["t"], val, i)[0])
+                lets = "".join("let %s: %s = %s; " % (lv(a), TYPES[a["t"]][0], pick(a["t"], val, i)[0])
                                for i, a in enumerate(m["args"]))
-                fields = ", ".join("%s: %s.clone()" % (rn(a), rn(a)) for a in m["args"])
+                fields = ", ".join("%s: %s.clone()" % (rn(a), lv(a)) for a in m["args"])
                 if m["kind"] in ENUM_KINDS:
                     ctor = "%s::%s { %s }" % (msg_path(part, m["kind"]), m["variant"], fields)
                     doc = '{"%s":%s}' % (m["wire"], body_json(m, val))
                 else:
                     ctor = "%s { %s }" % (msg_path(part, m["kind"]), fields)
                     doc = body_json(m, val)
-                args = ", ".join('("%s", rec::enc(&%s))' % (a["n"], rn(a)) for a in m["args"])
+                args = ", ".join('("%s", rec::enc(&%s))' % (a["n"], lv(a)) for a in m["args"])
                 out.append("        { %slet msg = %s; rec::encode(\"%s\", \"%s\", \"%s\", \"%s\", %d, vec![%s], &msg, %s); }\n" % (
                     lets, ctor, prog["id"], part["id"], m["kind"], m["name"], val, args, json.dumps(doc, ensure_ascii=False)))
     return "".join(out)
@@ -260,10 +266,10 @@ def remote_src(prog):
                 continue        # the helper decodes the declared type, the handler returns another one
             for val, handle in ((0, "contract"), (1, "dyn" if part["id"] != "own" else "contract")):
                 n += 1
-                lets = "".join("let %s: %s = %s; " % (rn(a), TYPES[a["t"]][0], pick(a["t"], val, i)[0])
+                lets = "".join("let %s: %s = %s; " % (lv(a), TYPES[a["t"]][0], pick(a["t"], val, i)[0])
                                for i, a in enumerate(m["args"]))
-                call_args = "".join(", %s.clone()" % rn(a) for a in m["args"])
-                encs = ", ".join('("%s", rec::enc(&%s))' % (a["n"], rn(a)) for a in m["args"])
+                call_args = "".join(", %s.clone()" % lv(a) for a in m["args"])
+                encs = ", ".join('("%s", rec::enc(&%s))' % (a["n"], lv(a)) for a in m["args"])
                 generic = prog.get("family") == "generic"
                 ctr = "Ctr<GenVal>" if generic else "Ctr"
                 if part["id"] == "own":
@@ -287,7 +293,7 @@ def remote_src(prog):
                              "          remote::exec(&vt, seq, \"%s\", \"%s\", \"%s\", %d, \"%s\", &addr, &funds, vec![%s], w); seq += 1; }\n" % (
                                  hty, trait_mod, m["near"], call_args, part["id"], m["name"], m["wire"], val, handle, encs))
                 else:
-                    encs_v = ", ".join('serde_json::json!({"n": "%s", "json": rec::enc(&%s)})' % (a["n"], rn(a)) for a in m["args"])
+                    encs_v = ", ".join('serde_json::json!({"n": "%s", "json": rec::enc(&%s)})' % (a["n"], lv(a)) for a in m["args"])
                     o.append("          let argsj: Vec<serde_json::Value> = vec![%s]; let a2 = addr.to_string(); let sq = seq;\n"
                              "          let mut deps = sylvia::cw_std::testing::mock_dependencies();\n"
                              "          deps.querier.update_wasm(move |wq| remote::query_handler(&self::vt(), sq, \"%s\", \"%s\", \"%s\", %d, \"%s\", &a2, argsj.clone(), wq));\n"
@@ -302,9 +308,9 @@ def remote_src(prog):
     inst = [m for m in own["methods"] if m["kind"] == "instantiate"][0]
     # (code ids: an ordinary one, the largest there is, and 0 -- no chain hands that one out, the builder keeps what it is given)
     for val, variant, cid in ((0, "plain", "40"), (1, "full", "18446744073709551615"), (0, "salted", "0")):
-        lets = "".join("let %s: %s = %s; " % (rn(a), TYPES[a["t"]][0], pick(a["t"], val, i)[0]) for i, a in enumerate(inst["args"]))
-        call_args = "".join(", %s.clone()" % rn(a) for a in inst["args"])
-        encs = ", ".join('("%s", rec::enc(&%s))' % (a["n"], rn(a)) for a in inst["args"])
+        lets = "".join("let %s: %s = %s; " % (lv(a), TYPES[a["t"]][0], pick(a["t"], val, i)[0]) for i, a in enumerate(inst["args"]))
+        call_args = "".join(", %s.clone()" % lv(a) for a in inst["args"])
+        encs = ", ".join('("%s", rec::enc(&%s))' % (a["n"], lv(a)) for a in inst["args"])
         o.append("        { use sv::CtrInstantiateBuilder; use sylvia::builder::instantiate::InstantiateBuilder; %slet funds = verif_rrt::funds_pool(%d);\n"
                  "          let b = InstantiateBuilder::ctr(%s%s);\n" % (lets, val + 1, cid, call_args))
         if variant == "plain":
@@ -330,10 +336,10 @@ def builder_src(prog):
     execs = [m for m in own["methods"] if m["kind"] == "exec"]
 
     def lets(m):
-        return "".join("let %s: %s = %s; " % (rn(a), TYPES[a["t"]][0], pick(a["t"], 0, i)[0]) for i, a in enumerate(m["args"]))
+        return "".join("let %s: %s = %s; " % (lv(a), TYPES[a["t"]][0], pick(a["t"], 0, i)[0]) for i, a in enumerate(m["args"]))
 
     def call_args(m):
-        return "".join(", %s.clone()" % rn(a) for a in m["args"])
+        return "".join(", %s.clone()" % lv(a) for a in m["args"])
     o = ["    fn builder_events(runs: &serde_json::Value) {\n"
          "        use sylvia::types::{EmptyExecutorBuilderState, ExecutorBuilder, Remote};\n"
          "        use sylvia::cw_std::{Addr, Binary};\n"
@@ -404,10 +410,10 @@ def mt_src(prog):
     mig = [m for m in own["methods"] if m["kind"] == "migrate"]
 
     def lets(m, val):
-        return "".join("let %s: %s = %s; " % (rn(a), TYPES[a["t"]][0], pick(a["t"], val, i)[0]) for i, a in enumerate(m["args"]))
+        return "".join("let %s: %s = %s; " % (lv(a), TYPES[a["t"]][0], pick(a["t"], val, i)[0]) for i, a in enumerate(m["args"]))
 
     def args(m):
-        return ", ".join("%s.clone()" % rn(a) for a in m["args"])
+        return ", ".join("%s.clone()" % lv(a) for a in m["args"])
 
     def call(p, m):      # fully qualified: handlers of different parts / kinds may share names
         tr = "sv::mt::CtrProxy" if p["id"] == "own" else "%s::sv::mt::%sProxy" % (imod(p), p["id"].capitalize())
